@@ -215,7 +215,7 @@ func init() {
 
 // ---------------------------------------------------------------- C18 through the real worker
 
-const c18PipeRule = " | worker stage (TestC18Pipe): generated sFlow pipelines (generator of C12: IPv4 and IPv6 agents, mixed sizes, malformed datagrams, cross traffic, worker churn) with a non-empty filter list run through the real " +
+const c18PipeRule = " | worker stage (TestC18Pipe): generated sFlow pipelines (generator of C12: IPv4 and IPv6 agents, mixed sizes, malformed datagrams, cross traffic, worker churn) with a non-empty filter list (in a third of the cases followed by a quiet-agent episode: one agent sends 3..40 datagrams per worker holding only samples of a listed type, then datagrams that also hold an unlisted one) run through the real " +
 	"sFlowWorker of the package-main driver; oracle = the published payloads equal, one by one, the library decode of each datagram under the same filter (so nothing between the option and the decoder drops or keeps more than the filter says)"
 
 func TestC18Pipe(t *testing.T) {
@@ -226,7 +226,65 @@ func TestC18Pipe(t *testing.T) {
 				c.Filter = []uint32{rapid.SampledFrom([]uint32{1, 2, 9}).Draw(t, "onefilter")}
 			}
 		}
+		if rapid.IntRange(0, 2).Draw(t, "quietagent") == 0 {
+			addQuietAgentEpisode(t, c)
+		}
 	})
+}
+
+// addQuietAgentEpisode appends a phase in which one agent first sends a long run of datagrams that hold nothing but
+// samples of a listed type (each worker sees more than a handful in a row), and then datagrams that also hold a sample
+// of an unlisted type: what an agent sent before says nothing about what its next datagram holds.
+func addQuietAgentEpisode(t *rapid.T, c *plCase) {
+	listed := map[uint32]bool{}
+	for _, f := range c.Filter {
+		listed[f] = true
+	}
+	var quiet, other string
+	switch {
+	case listed[2] && !listed[1]:
+		quiet, other = "counter", "flow"
+	case listed[1] && !listed[2]:
+		quiet, other = "flow", "counter"
+	default:
+		return
+	}
+	if len(c.Exporters) == 0 {
+		return
+	}
+	exp := rapid.IntRange(0, len(c.Exporters)-1).Draw(t, "quietexp")
+	agent := wire.Hex{10, 77, 0, byte(rapid.IntRange(1, 250).Draw(t, "quietagentaddr"))}
+	sample := func(kind string, i int) wire.SFSample {
+		if kind == "counter" {
+			return wire.SFSample{Kind: "counter", Counter: &wire.SFCounter{Seq: uint32(i), SrcIdx: 3, Recs: []wire.SFCounterRec{{Kind: "proc", Vals: []uint64{1, 2, 3, 4, uint64(i)}}}}}
+		}
+		return wire.SFSample{Kind: "flow", Flow: &wire.SFFlow{Seq: uint32(i), SrcIdx: 3, Rate: 100, Pool: uint32(i), Input: 1, Output: 2,
+			Recs: []wire.SFFlowRec{{Kind: "switch", Switch: []uint32{10, 0, uint32(20 + i%7), 0}}}}}
+	}
+	w := c.Workers
+	if w < 1 {
+		w = 1
+	}
+	run := w * rapid.SampledFrom([]int{3, 17, 24, 40}).Draw(t, "quietrun")
+	if run > 700 {
+		run = 700
+	}
+	var data []plDatagram
+	for i := 0; i < run; i++ {
+		d := wire.SFDatagram{Agent: agent, Seq: uint32(700000 + i), Uptime: uint32(i), Samples: []wire.SFSample{sample(quiet, i)}}
+		if i%3 == 0 {
+			d.Samples = append(d.Samples, sample(quiet, i+1))
+		}
+		data = append(data, plDatagram{Exp: exp, Data: d.Bytes(), Class: "valid"})
+	}
+	for i, n := 0, rapid.IntRange(5, 30).Draw(t, "quietthen"); i < n; i++ {
+		d := wire.SFDatagram{Agent: agent, Seq: uint32(710000 + i), Uptime: uint32(i), Samples: []wire.SFSample{sample(quiet, i), sample(other, i)}}
+		if i%2 == 0 {
+			d.Samples[0], d.Samples[1] = d.Samples[1], d.Samples[0]
+		}
+		data = append(data, plDatagram{Exp: exp, Data: d.Bytes(), Class: "valid"})
+	}
+	c.Phases = append(c.Phases, data)
 }
 
 // workerStage runs generated pipelines (generator and differential oracle of C12) under another property's name:
